@@ -439,14 +439,18 @@ End Del.
 
 (* ---- facts about every state reachable without Clear / Close ---- *)
 Definition lab_nc (l : label) : Prop := match l with LCall _ OClear | LCall _ OClose => False | _ => True end.
+Definition swt (a : apc) (now : Z) : Prop :=
+  match a with ASweep _ t | ASweepPol _ _ _ t => t <= now | _ => True end.
+Definition apc_fl (a : apc) : Prop := match a with ADelStore i => it_flag i = FDel | _ => True end.
 Record base_inv (s : state) : Prop := {
   b_thr : forall tid t, s_threads s !! tid = Some t ->
           match t_pc t with CSetUpd i | CSetSend i => it_wait i = None | CClr _ _ => False | _ => True end;
-  b_mk : mk_ok s; b_apc : apc_wf (s_apc s); b_open : s_chan_closed s = false }.
+  b_mk : mk_ok s; b_apc : apc_wf (s_apc s); b_open : s_chan_closed s = false;
+  b_fl : apc_fl (s_apc s); b_swt : swt (s_apc s) (s_now s); b_nc : s_closed s = false }.
 
 Lemma step_base cf s l s' : lab_nc l -> base_inv s -> mstep cf s l = Some s' -> base_inv s'.
 Proof.
-  intros HL [Hq [Hm1 Hm2] Ha Hc] H.
+  intros HL [Hq [Hm1 Hm2] Ha Hc Hfl Hsw Hnc] H.
   assert (Hg : forall tid, match t_pc (get_thread s tid) with
                            | CSetUpd i | CSetSend i => it_wait i = None | CClr _ _ => False | _ => True end).
   { intros tid. unfold get_thread. destruct (s_threads s !! tid) eqn:E; simpl; [eapply Hq; eauto|exact I]. }
@@ -456,9 +460,12 @@ Proof.
   all: try contradiction.
   all: try congruence.
   all: try solve [ exfalso; exact HL ].
-  all: simpl in Ha.
+  all: simpl in Ha; try (simpl in Hfl); try (simpl in Hsw).
   all: constructor; msimpl.
   all: try exact Hq.
+  all: try exact Hnc.
+  all: try exact Hfl.
+  all: try exact Hsw.
   all: try solve [ intros tid0 t0 Hl; apply lookup_thread_insert in Hl as [[-> ->]|[_ Hl]]; [|exact (Hq _ _ Hl)];
                    simpl; first [ exact I | reflexivity | assumption | apply Hg ] ].
   all: try exact (conj Hm1 Hm2).
@@ -477,6 +484,10 @@ Proof.
   all: try exact I.
   all: try solve [ simpl; auto ].
   all: try assumption.
+  all: try solve [ simpl; lia ].
+  all: try solve [ simpl; match goal with Hd0 : (_ <? 0) = false |- _ => apply Z.ltb_ge in Hd0; lia end ].
+  all: try solve [ match goal with Hd0 : (_ <? 0) = false |- _ => apply Z.ltb_ge in Hd0 end;
+                   destruct (s_apc s); simpl in *; auto; lia ].
 Qed.
 
 Lemma init_base maxCost bdur now mon : base_inv (init_state maxCost bdur now mon).
